@@ -26,15 +26,33 @@ def exception_edges(run, fn):
     return out
 
 
+def marker_closure(F):
+    """Message types and every crate type that (transitively) owns one: dropping a `ParserState` drops the values inside it."""
+    marks = set(MARKERS)
+    changed = True
+    while changed:
+        changed = False
+        for path, a in F.adts.items():
+            if path in marks or not path.startswith("ipp::"):
+                continue
+            if any(any(m in f["ty"] for m in marks) for v in a["variants"] for f in v["fields"]):
+                marks.add(path)
+                changed = True
+    return sorted(marks)
+
+
 def r_linear(run, F, rule="R-LINEAR"):
     n = 0
-    for fn in STATE_FNS:
+    markers = marker_closure(F)
+    # the fixed anchors plus every other non-test fn of the parser module the compiler gave elaborated MIR for (new helpers)
+    fns = list(STATE_FNS) + sorted(f for f in F.mir_elab if f.startswith("ipp::parser::") and "::tests::" not in f and f not in STATE_FNS)
+    for fn in fns:
         body = F.mir_elab.get(fn)
         if body is None:
             run.anchor_lost(rule, fn + " (elaborated MIR)")
             continue
         ex = exception_edges(run, fn)
-        results, stats, m = analyse(body, MARKERS, ex)
+        results, stats, m = analyse(body, markers, ex)
         for r in results:
             n += 1
             st = "%s:%s (%s)" % (body["file"], r["line"], fn)
@@ -169,11 +187,10 @@ def check(run, views, tier):
         run.floor("R-DISPATCH", nd, 512 if rr.async_on(F) else 256, "tag bytes classified")
         # the parser formats every decoded value in a trace!() call: a Display that can panic on well-formed text makes the
         # parser refuse (abort on) a well-formed message. R-GUARD's text-slice clause over the parse cone (which contains Display).
-        from .. import guardrules as gr
-        from ..engine import Only
-        TP = load_json(os.path.join(VERIF, "tables", "panic.json"))
-        g = gr.call_graph(F)
-        gr.r_guard(Only(run, "|text slice of", "|panic|", "|unwrap|", "|length guard of"), F, TP, gr.cone(g, gr.PARSE_ROOTS))
+        rr.r_trace_display(run, F)
+        rr.r_token(run, F)
+        # a decode error must be returned, not skipped (a swallowed error turns the rest of the attribute into something else)
+        rr.r_propagate(run, F)
         n = cr.r_tagmap(run, F, T, check_registry=True)
         run.floor("R-TAGMAP", n, 19, "fixed-tag kinds")
         ne, ndec = cr.r_layout(run, F, T, external=True, casts=False)
